@@ -3,6 +3,7 @@ package sym
 import (
 	"fmt"
 	"go/token"
+	"io"
 	"sort"
 	"strings"
 	"sync"
@@ -34,6 +35,8 @@ type Interp struct {
 	prefix    []int
 	taken     []int
 	pc        []*smt.Term
+	pcSet     map[*smt.Term]bool
+	pcVal     map[*smt.Term]*smt.Term
 	pcFalse   bool
 	forks     [][]int
 	inputs    []inputVar
@@ -155,6 +158,12 @@ func (in *Interp) decide(cond *smt.Term) bool {
 		in.take(d, cond)
 		return d == 1
 	}
+	// syntactic shortcuts: the condition (or its negation) is already a
+	// conjunct of the path condition, or contradicts a known equality
+	if v, ok := in.syntactic(cond); ok {
+		in.take(b2i(v), cond)
+		return v
+	}
 	if len(in.taken) >= in.ForkBudget {
 		panic(budgetPanic{fmt.Sprintf("fork-depth budget %d exceeded", in.ForkBudget)})
 	}
@@ -179,10 +188,75 @@ func (in *Interp) decide(cond *smt.Term) bool {
 func (in *Interp) take(d int, cond *smt.Term) {
 	in.taken = append(in.taken, d)
 	if d == 1 {
-		in.pc = append(in.pc, cond)
+		in.addPC(cond)
 	} else {
-		in.pc = append(in.pc, in.ctx.Not(cond))
+		in.addPC(in.ctx.Not(cond))
 	}
+}
+
+func b2i(b bool) int {
+	if b {
+		return 1
+	}
+	return 0
+}
+
+// addPC appends a conjunct to the path condition and indexes it for the
+// syntactic shortcuts.
+func (in *Interp) addPC(t *smt.Term) {
+	if in.pcSet[t] {
+		return
+	}
+	in.pc = append(in.pc, t)
+	in.pcSet[t] = true
+	switch t.Op {
+	case smt.OpAnd:
+		for _, a := range t.Args {
+			in.indexFact(a)
+		}
+	default:
+		in.indexFact(t)
+	}
+}
+
+func (in *Interp) indexFact(t *smt.Term) {
+	in.pcSet[t] = true
+	if t.Op == smt.OpEq {
+		a, b := t.Args[0], t.Args[1]
+		if b.IsConst() && !a.IsConst() {
+			in.pcVal[a] = b
+		} else if a.IsConst() && !b.IsConst() {
+			in.pcVal[b] = a
+		}
+	}
+}
+
+// syntactic decides cond from facts already in the path condition.
+func (in *Interp) syntactic(cond *smt.Term) (bool, bool) {
+	if in.pcSet[cond] {
+		return true, true
+	}
+	if in.pcSet[in.ctx.Not(cond)] {
+		return false, true
+	}
+	neg := false
+	t := cond
+	if t.Op == smt.OpNot {
+		neg = true
+		t = t.Args[0]
+	}
+	if t.Op == smt.OpEq {
+		a, b := t.Args[0], t.Args[1]
+		if a.IsConst() {
+			a, b = b, a
+		}
+		if b.IsConst() {
+			if v, ok := in.pcVal[a]; ok {
+				return (v == b) != neg, true
+			}
+		}
+	}
+	return false, false
 }
 
 // feasible reports whether pc ∧ cond is satisfiable (unknown counts as yes).
@@ -241,10 +315,16 @@ func (in *Interp) assume(v Value) {
 			// Always check feasibility unless replaying inside the prefix,
 			// where the parent already established it.
 		}
+		if v, ok := in.syntactic(c.T); ok {
+			if !v {
+				panic(abortPath{"assumption infeasible"})
+			}
+			return
+		}
 		if !in.feasibleCached(c.T) {
 			panic(abortPath{"assumption infeasible"})
 		}
-		in.pc = append(in.pc, c.T)
+		in.addPC(c.T)
 	default:
 		checkPoison(v)
 		panic(fmt.Sprintf("assume: %T", v))
@@ -339,6 +419,12 @@ func (in *Interp) check(v Value, msg, knownID string, fr *frame) {
 		panic(abortPath{"assertion failed"})
 	case SymBool:
 		in.symAssert++
+		if v, ok := in.syntactic(c.T); ok && v {
+			in.stats.mu.Lock()
+			in.stats.Discharged++
+			in.stats.mu.Unlock()
+			return
+		}
 		as := append(append([]*smt.Term{}, in.pc...), in.ctx.Not(c.T))
 		r, m, err := in.solver.Check(as, in.inputTerms())
 		in.stats.mu.Lock()
@@ -355,7 +441,7 @@ func (in *Interp) check(v Value, msg, knownID string, fr *frame) {
 			in.stats.mu.Unlock()
 		}
 		// continue under the assumption that it holds
-		in.pc = append(in.pc, c.T)
+		in.addPC(c.T)
 		if r == smt.Sat {
 			if !in.feasible(in.ctx.T) {
 				panic(abortPath{"nothing left after failed assertion"})
@@ -421,6 +507,8 @@ func (in *Interp) RunPath(entry *ssa.Function, prefix []int) (res PathResult) {
 	in.prefix = prefix
 	in.taken = in.taken[:0]
 	in.pc = nil
+	in.pcSet = map[*smt.Term]bool{}
+	in.pcVal = map[*smt.Term]*smt.Term{}
 	in.forks = nil
 	in.inputs = nil
 	in.nameCount = map[string]int{}
@@ -529,6 +617,7 @@ type ExploreConfig struct {
 	MaxPaths   int
 	Deadline   time.Time
 	SolverLog  string
+	Progress   io.Writer
 }
 
 type ExploreResult struct {
@@ -549,6 +638,26 @@ func Explore(p *Program, entry *ssa.Function, cfg ExploreConfig) (*ExploreResult
 
 	var wg sync.WaitGroup
 	var firstErr error
+	stopProgress := make(chan struct{})
+	if cfg.Progress != nil {
+		go func() {
+			tk := time.NewTicker(5 * time.Second)
+			defer tk.Stop()
+			for {
+				select {
+				case <-stopProgress:
+					return
+				case <-tk.C:
+					mu.Lock()
+					ql, ac, stt := len(queue), active, started
+					mu.Unlock()
+					stats.mu.Lock()
+					fmt.Fprintf(cfg.Progress, "  progress: started=%d queue=%d active=%d completed=%d pruned=%d findings=%d inconcl=%d feasQ=%d\n", stt, ql, ac, stats.Completed, stats.Pruned, len(stats.Findings), len(stats.Inconcl), stats.FeasQ)
+					stats.mu.Unlock()
+				}
+			}
+		}()
+	}
 	for w := 0; w < cfg.Workers; w++ {
 		wg.Add(1)
 		go func(w int) {
@@ -640,6 +749,7 @@ func Explore(p *Program, entry *ssa.Function, cfg ExploreConfig) (*ExploreResult
 		}(w)
 	}
 	wg.Wait()
+	close(stopProgress)
 	if firstErr != nil {
 		return nil, firstErr
 	}
